@@ -143,6 +143,18 @@ Proof.
     apply negb_true_iff in Hdt.
     pose proof (resolves_from E (VEnum (md, x :: q) m) _ eq_refl Hdt Hres0) as Hres. cbn [hd snd fst] in Hres.
     cbn [repr norm snd eval]. rewrite unsnoc_app. cbn [resolve]. rewrite Hres, Hwf. reflexivity.
+  - (* VFlag *)
+    destruct c as [md q]. cbn [wf_local snd fst] in Hwf.
+    apply andb_true_iff in Hwf as [Hwf _]. apply andb_true_iff in Hwf as [Hwf Hdt].
+    apply andb_true_iff in Hwf as [Hwf Hq]. apply andb_true_iff in Hwf as [Hfl Hlib].
+    destruct q as [|x q]; [discriminate Hq|]. apply negb_true_iff in Hdt.
+    pose proof (resolves_from E (VFlag (md, x :: q) z) _ eq_refl Hdt Hres0) as Hres. cbn [hd snd fst] in Hres.
+    cbn [repr norm snd]. rewrite eval_ECall. cbn [eval_list eval eval_kws].
+    unfold apply_call. rewrite Hres. unfold class_call.
+    destruct (lib_kind (md, x :: q)); [discriminate Hlib|].
+    unfold find_data, flag_call.
+    destruct (find_class W (md, x :: q)) as [[fr fds|ms [vals|]]|]; try discriminate Hfl.
+    destruct (flag_member ms vals z); [discriminate Hfl|]. reflexivity.
 Qed.
 
 (* ---------------------------------------------------------------- lists *)
